@@ -73,6 +73,25 @@ Definition fsim {A} (r1 r2 : fres A) : Prop :=
 (* the source fails at byte offset k of s: it delivers firstn k s, cut into pieces in any way *)
 Definition cut_of (c : stream) (k : nat) (s : list N) : Prop := concat c = firstn k s.
 
+(* THE READER CLAUSES OF C09, as predicates on a decoder.
+   frag_invariant d: whatever the division of the stream into pieces (run_chunked: Base/Dec.v; run_src: also with
+   the terminal error delivered together with the last piece, and whatever that error is), d returns what it
+   returns on the contiguous bytes: same value, same count (part of the value), same residual stream. *)
+Definition frag_invariant {A} (d : dec A) : Prop :=
+  forall (tg : bool) (term : N) (s : stream),
+    run_chunked d s = run_flat d (concat s) /\
+    run_src d tg eEOF s = run_flat d (concat s) /\
+    fsim (run_src d tg term s) (run_flat d (concat s)).
+(* fault_safe d: if d completes on s leaving rest, and the source ends or fails (term = eEOF: C09_eof, term = eInj
+   or anything else: C09_err) after the first k bytes of s, cut into pieces in any way c, then d returns the
+   source's error when k is short of what d needs - never a value - and the same value when k covers it. *)
+Definition fault_safe {A} (d : dec A) : Prop :=
+  forall (tg : bool) (term : N) (s : list N) (a : A) (rest : list N), run_flat d s = FOk a rest ->
+  forall (c : stream) (k : nat), cut_of c k s ->
+    ((k + length rest < length s)%nat -> run_src d tg term c = FErr term) /\
+    ((length s <= k + length rest)%nat ->
+       exists r', run_src d tg term c = FOk a r' /\ rest = r' ++ skipn k s).
+
 (* cutting a byte string into pieces of the given sizes (size 0 is read as 1); what is left when the
    sizes run out is one last piece.  Used by the correspondence run to name a chunking compactly. *)
 Fixpoint chop (fuel : nat) (sizes : list N) (s : list N) : stream :=
@@ -123,6 +142,14 @@ Fixpoint run_writer (ws : list wcall) (st : option N) (sink : list N) : wout :=
       end
   end.
 Definition write_to (ws : list wcall) (k : N) : wout := run_writer ws (Some k) [].
+
+(* THE WRITER CLAUSE OF C09: the calls ws produce the byte image img; a destination that fails after k < |img|
+   bytes makes the encoder return an error, having received exactly the first k bytes; one that accepts the
+   whole image makes it return nil. *)
+Definition writer_safe (ws : list wcall) (img : list N) : Prop :=
+  image ws = img /\
+  forall k : N, (k < lenN img -> write_to ws k = WFail (takeN k img)) /\
+                (lenN img <= k -> write_to ws k = WDone img).
 
 (* ---- net/packet/types.go, util.go: one Write per scalar; String / ByteArray: prefix, then content;
    BitSet, Ary: prefix, then the elements; Option: the Boolean, then the value; Opt: nothing or the field;
@@ -234,4 +261,4 @@ Definition d_nbt_snbt f fuel := Decode f (dec_snbt fuel).
 Definition d_nbt_ty f fuel ty := Decode f (dec_ty fuel ty).
 Definition mk_rstate (id : Z) (cap : N) : C07.rstate := C07.Build_rstate id [] cap.
 Definition rstate_view (r : C07.rstate) : Z * N * list N := (C07.r_id r, C07.r_cap r, C07.r_data r).
-Definition bits_store (d : list N) : C11.bstore := C11.mkBS d 0 0%Z 0%Z 0%Z.
+Definition bits_store (bs : list N) : C11.bstore := C11.mkBS (C11.longs_of bs) 0 0%Z 0%Z 0%Z.   (* from big-endian bytes *)
